@@ -4,7 +4,7 @@
   computed by walking the clauses in a reader-friendly order (features first).  Nothing here is used by a theorem, and
   no check of the harness depends on it.
 -/
-import Spydr.Verilog.RoundTripLeafI
+import Spydr.Verilog.RoundTripLeafJ
 import Spydr.Verilog.RoundTripDesign
 namespace Spydr.Verilog.Elab
 open Spydr.Verilog
@@ -156,11 +156,17 @@ def whyLeaf (r : Text.WDef) : Option String :=
     match p.name, dirOfS p.dir with
     | none, _ => some "port-unnamed"
     | _, none => some "port-direction-undefined"
-    | some _, some _ =>
-      if !p.pins.all (fun b => b.isNone) then some "inner-nets(pins-wired)"
-      else if p.width == 0 then some "port-of-width-0"
+    | some nm, some _ =>
+      if p.width == 0 then some "port-of-width-0"
       else if !(p.attrs.getD []).isEmpty then some "port-attributes"
-      else none)
+      else if p.pins.all (fun b => b.isNone) then none
+      else match r.cables.find? (fun c => c.name == nm) with
+        | none => some "inner-pins-wired-but-no-net-of-the-port's-name"
+        | some c =>
+          if decide (p.lower = c.lower) && decide (p.width = c.width) &&
+              decide (p.pins = (cableBits nm c.lower c.width).items.map some) then
+            (if emitHeaderPort (Text.envOf r) nm p.pins = some none then none else some "port-alias")
+          else some "port-not-wired-to-the-whole-net-of-its-name")
 
 /-- `c04_text_bb`: (inside?, explanation) -/
 def reportBB (n : Text.WNet) : Bool × String :=
@@ -193,6 +199,17 @@ def reportBB (n : Text.WNet) : Bool × String :=
           else none
       | _, _ => some "astOf"
     (false, "out:" ++ why.getD "unexplained")
+
+/-- `c04_full_bb` (full rows): inside `c04_text_bb` and consistent about widths -/
+def reportFullBB (n : Text.WNet) : Bool × String :=
+  match reportBB n with
+  | (false, why) => (false, why)
+  | (true, _) =>
+    match topOf n with
+    | none => (false, "out:no-top")
+    | some (_, T) =>
+      if rowsFitB n T (leafDefs n ((composeOrder n).drop 1)) then (true, "in")
+      else (false, "out:rowsFit:an-instance-row-is-not-as-wide-as-the-port")
 
 /-! ### C06: the source text, through the syntax trees the parser returns -/
 
